@@ -36,7 +36,7 @@ def cases(seed, tier):
     ureps = 2 if tier == 'quick' else 14
     for ms in mspecs:
         for r in range(ureps):
-            kind = str(rng.choice(['normal', 'skewed', 'five', 'huge', 'beta', 'heavy', 'bimodal', 'tiny']))
+            kind = str(rng.choice(['normal', 'skewed', 'five', 'huge', 'beta', 'heavy', 'bimodal', 'tiny', 'minuscule', 'offset']))
             out.append({'kind': 'univariate', 'model': ms, 'data': {'kind': kind, 'n': int(rng.choice([40, 300])),
                                                                      'seed': int(rng.integers(1 << 31))}})
         out.append({'kind': 'univariate', 'model': ms, 'constant': float(rng.choice([3.0, -1.5, 0.0, 1e5]))})
